@@ -244,4 +244,203 @@ def runG {σ : Type} (step : σ → Op → σ × Out) (s : σ) : List Op → σ 
     let q := runG step r.1 rest
     (q.1, r.2 :: q.2)
 
+/-! ## finer lock model: a method is `acquire; steps…; release`
+
+Here nothing is atomic by construction.  A call is a list of commands; `acc f` reads/writes the shared cache
+state (data, ring, statistics, max_size, next_cleaning, the clock), `loc f` touches only the thread's registers.
+**Any** thread may execute its next command at any time — an `acc` is executed whether or not the thread holds the
+lock, `release` frees the lock whoever calls it (as `threading.Lock` does).  The lock discipline is a property of the
+*code* (`disc`): shared accesses occur only between the one `acquire` and the one `release` of the call.  That
+discipline is what the access monitor of the harness checks on the real methods. -/
+
+inductive Cmd (σ ρ : Type) where
+  | acquire
+  | release
+  | acc (f : ρ → σ → ρ × σ)
+  | loc (f : ρ → ρ)
+
+structure Call (σ ρ : Type) where
+  op : Op
+  code : List (Cmd σ ρ)
+  init : ρ
+  ret : ρ → Out
+
+structure Running (σ ρ : Type) where
+  call : Call σ ρ
+  rest : List (Cmd σ ρ)
+  regs : ρ
+
+structure MThread (σ ρ : Type) where
+  todo : List (Call σ ρ)
+  cur : Option (Running σ ρ)
+  outs : List Out
+
+structure MSys (σ ρ : Type) where
+  shared : σ
+  lock : Option Nat
+  threads : Nat → MThread σ ρ
+  acq : List (Nat × Op)
+
+def updM {σ ρ : Type} (f : Nat → MThread σ ρ) (i : Nat) (t : MThread σ ρ) : Nat → MThread σ ρ :=
+  fun j => if j = i then t else f j
+
+def mStep {σ ρ : Type} (y : MSys σ ρ) (i : Nat) : MSys σ ρ :=
+  let t := y.threads i
+  match t.cur with
+  | none =>
+    match t.todo with
+    | [] => y
+    | c :: r => { y with threads := updM y.threads i { t with todo := r, cur := some ⟨c, c.code, c.init⟩ } }
+  | some ⟨c, [], regs⟩ => { y with threads := updM y.threads i { t with cur := none, outs := t.outs ++ [c.ret regs] } }
+  | some ⟨c, .acquire :: k, regs⟩ =>
+    match y.lock with
+    | some _ => y                                    -- blocked
+    | none => { y with lock := some i, acq := y.acq ++ [(i, c.op)],
+                       threads := updM y.threads i { t with cur := some ⟨c, k, regs⟩ } }
+  | some ⟨c, .release :: k, regs⟩ =>
+    { y with lock := none, threads := updM y.threads i { t with cur := some ⟨c, k, regs⟩ } }
+  | some ⟨c, .acc f :: k, regs⟩ =>
+    let r := f regs y.shared
+    { y with shared := r.2, threads := updM y.threads i { t with cur := some ⟨c, k, r.1⟩ } }
+  | some ⟨c, .loc f :: k, regs⟩ =>
+    { y with threads := updM y.threads i { t with cur := some ⟨c, k, f regs⟩ } }
+
+def mRun {σ ρ : Type} (y : MSys σ ρ) : List Nat → MSys σ ρ
+  | [] => y
+  | i :: rest => mRun (mStep y i) rest
+
+def mInit {σ ρ : Type} (s : σ) (progs : Nat → List (Call σ ρ)) : MSys σ ρ :=
+  { shared := s, lock := none, threads := fun i => { todo := progs i, cur := none, outs := [] }, acq := [] }
+
+/-- where a piece of code stands with respect to its critical section -/
+inductive Ph where
+  | pre | cs | post
+  deriving DecidableEq
+
+/-- the lock discipline: one `acquire`, then one `release`; shared accesses only in between -/
+def disc {σ ρ : Type} : Ph → List (Cmd σ ρ) → Bool
+  | .post, [] => true
+  | _, [] => false
+  | .pre, .acquire :: k => disc .cs k
+  | .cs, .release :: k => disc .post k
+  | .cs, .acc _ :: k => disc .cs k
+  | p, .loc _ :: k => disc p k
+  | _, _ :: _ => false
+
+/-- the same code run alone, start to end -/
+def solo {σ ρ : Type} : List (Cmd σ ρ) → ρ → σ → ρ × σ
+  | [], r, s => (r, s)
+  | .acquire :: k, r, s => solo k r s
+  | .release :: k, r, s => solo k r s
+  | .acc f :: k, r, s => solo k (f r s).1 (f r s).2
+  | .loc f :: k, r, s => solo k (f r) s
+
+def callSem {σ ρ : Type} (c : Call σ ρ) (s : σ) : σ × Out := ((solo c.code c.init s).2, c.ret (solo c.code c.init s).1)
+
+/-! ### the cache methods at that granularity
+
+Registers of a thread inside a method.  Each `acc` below is one statement (or one loop) of the method body in
+`dns/resolver.py`; the leading and trailing `loc` are argument evaluation and the hand-over of the return value,
+which happen outside the lock (`set_max_size` also clamps its argument there).  Sweeps and the eviction loop are one
+`acc` each (their inner iterations only touch state the lock already protects). -/
+
+structure Regs where
+  now : Nat
+  flag : Bool
+  ans : Option Ans
+  node : Option Node
+  n : Nat
+  out : Out
+
+def regs0 : Regs := { now := 0, flag := false, ans := none, node := none, n := 0, out := .unit }
+
+/-- `Cache._maybe_clean`, statement by statement -/
+def cleanC : List (Cmd CState Regs) :=
+  [ .acc (fun r s => ({ r with now := s.now, flag := decide (s.nextCleaning ≤ s.now) }, s)),   -- now = time.time(); if next_cleaning <= now
+    .acc (fun r s => (r, if r.flag then { s with data := s.data.filter (fun p => ¬ p.2.exp ≤ r.now) } else s)),
+    .acc (fun r s => (r, if r.flag then { s with nextCleaning := s.now + s.interval } else s)) ] -- now = time.time(); next_cleaning = …
+
+def codeC : Op → List (Cmd CState Regs)
+  | .get k =>
+    [.loc id, .acquire] ++ cleanC ++
+    [ .acc (fun r s => ({ r with ans := dget s.data k }, s)),                                    -- v = self.data.get(key)
+      .acc (fun r s => match r.ans with                                                          -- expiry test and statistics
+        | none => ({ r with out := .none }, { s with misses := s.misses + 1 })
+        | some a => if a.exp ≤ s.now then ({ r with out := .none }, { s with misses := s.misses + 1 })
+                    else ({ r with out := .val a.val }, { s with hits := s.hits + 1 })),
+      .release, .loc id ]
+  | .put k a =>
+    [.loc id, .acquire] ++ cleanC ++ [ .acc (fun r s => (r, { s with data := dset s.data k a })), .release, .loc id ]
+  | .flush k => [.loc id, .acquire, .acc (fun r s => (r, { s with data := ddel s.data k })), .release, .loc id]
+  | .flushAll =>
+    [.loc id, .acquire, .acc (fun r s => (r, { s with data := [] })),
+      .acc (fun r s => (r, { s with nextCleaning := s.now + s.interval })), .release, .loc id]
+  | .adv dt => [.acquire, .acc (fun r s => (r, { s with now := s.now + dt })), .release]
+  | .hits => [.loc id, .acquire, .acc (fun r s => ({ r with n := s.hits }, s)), .release, .loc (fun r => { r with out := .num r.n })]
+  | .misses => [.loc id, .acquire, .acc (fun r s => ({ r with n := s.misses }, s)), .release, .loc (fun r => { r with out := .num r.n })]
+  | .reset =>
+    [.loc id, .acquire, .acc (fun r s => (r, { s with hits := 0 })), .acc (fun r s => (r, { s with misses := 0 })), .release, .loc id]
+  | .snapshot => [.loc id, .acquire, .acc (fun r s => ({ r with out := .stats s.hits s.misses }, s)), .release, .loc id]
+  | .setMax _ => [.acquire, .release]
+  | .hitsFor _ => [.acquire, .release, .loc (fun r => { r with out := .num 0 })]
+
+def callC (op : Op) : Call CState Regs := { op := op, code := codeC op, init := regs0, ret := fun r => r.out }
+
+def codeL : Op → List (Cmd LState Regs)
+  | .get k =>
+    [ .loc id, .acquire,
+      .acc (fun r s => ({ r with node := findNode s.ring k }, { s with tick := s.tick + 1 })),   -- node = self.data.get(key)
+      .acc (fun r s => match r.node with                                                         -- miss, or node.unlink()
+        | none => ({ r with out := .none }, { s with misses := s.misses + 1 })
+        | some _ => (r, { s with ring := removeKey s.ring k })),
+      .acc (fun r s => match r.node with                                                         -- expiry test
+        | none => (r, s)
+        | some n => ({ r with flag := decide (n.ans.exp ≤ s.now) }, s)),
+      .acc (fun r s => match r.node with                                                         -- del data[key] / link_after
+        | none => (r, s)
+        | some n => if r.flag then (r, s)
+                    else (r, { s with ring := { n with hits := n.hits + 1, stamp := s.tick } :: s.ring })),
+      .acc (fun r s => match r.node with                                                         -- statistics
+        | none => (r, s)
+        | some n => if r.flag then ({ r with out := .none }, { s with misses := s.misses + 1 })
+                    else ({ r with out := .val n.ans.val }, { s with hits := s.hits + 1 })),
+      .release, .loc id ]
+  | .put k a =>
+    [ .loc id, .acquire,
+      .acc (fun r s => ({ r with node := findNode s.ring k }, { s with tick := s.tick + 1 })),
+      .acc (fun r s => (r, { s with ring := removeKey s.ring k })),                               -- if node: unlink, del
+      .acc (fun r s => (r, { s with ring := evictTo s.maxSize s.ring })),                         -- while len(data) >= max_size
+      .acc (fun r s => (r, { s with ring := { key := k, ans := a, hits := 0, stamp := s.tick } :: s.ring })),
+      .release, .loc id ]
+  | .flush k =>
+    [.loc id, .acquire, .acc (fun r s => (r, { s with tick := s.tick + 1, ring := removeKey s.ring k })), .release, .loc id]
+  | .flushAll => [.loc id, .acquire, .acc (fun r s => (r, { s with tick := s.tick + 1, ring := [] })), .release, .loc id]
+  | .setMax n =>
+    [ .loc (fun r => { r with n := clampMax n }),                                                 -- clamp, outside the lock
+      .acquire,
+      .acc (fun r s => (r, { s with tick := s.tick + 1, maxSize := r.n })),
+      .acc (fun r s => (r, { s with ring := evictTo (s.maxSize + 1) s.ring })),                   -- while len(data) > max_size
+      .release, .loc id ]
+  | .adv dt => [.acquire, .acc (fun r s => (r, { s with tick := s.tick + 1, now := s.now + dt })), .release]
+  | .hits =>
+    [.loc id, .acquire, .acc (fun r s => ({ r with n := s.hits }, { s with tick := s.tick + 1 })), .release,
+      .loc (fun r => { r with out := .num r.n })]
+  | .misses =>
+    [.loc id, .acquire, .acc (fun r s => ({ r with n := s.misses }, { s with tick := s.tick + 1 })), .release,
+      .loc (fun r => { r with out := .num r.n })]
+  | .hitsFor k =>
+    [ .loc id, .acquire,
+      .acc (fun r s => ({ r with node := findNode s.ring k }, { s with tick := s.tick + 1 })),
+      .acc (fun r s => match r.node with
+        | none => ({ r with n := 0 }, s)
+        | some n => if n.ans.exp ≤ s.now then ({ r with n := 0 }, s) else ({ r with n := n.hits }, s)),
+      .release, .loc (fun r => { r with out := .num r.n }) ]
+  | .reset =>
+    [.loc id, .acquire, .acc (fun r s => (r, { s with tick := s.tick + 1, hits := 0 })),
+      .acc (fun r s => (r, { s with misses := 0 })), .release, .loc id]
+  | .snapshot =>
+    [.loc id, .acquire, .acc (fun r s => ({ r with out := .stats s.hits s.misses }, { s with tick := s.tick + 1 })), .release, .loc id]
+
+def callL (op : Op) : Call LState Regs := { op := op, code := codeL op, init := regs0, ret := fun r => r.out }
+
 end Model.Cache
